@@ -495,9 +495,15 @@ func (k *KVStore) RangeHKey(f func(hkey uint64) bool) {
 	start := rand.Intn(n)
 	for i := 0; i < n; i++ {
 		t := k.tables[(start+n-i)%n]
+		next := true
 		t.RangeHKey(func(hkey uint64) bool {
-			return f(hkey)
+			next = f(hkey)
+			return next
 		})
+		if !next {
+			// f wants to stop the iteration, not to continue with the next table.
+			return
+		}
 	}
 }
 
